@@ -265,6 +265,23 @@ func c02Body(w *W) {
 							break
 						}
 					}
+					if !cp && l == 0 {
+						// once more without any option into the object just used in no-copy mode;
+						// strings are copied by default, so the input may be overwritten before reading
+						pj, err, p := sess[cp].parseDefaultScribbled(c.AVX512, text)
+						w.res.Validated++
+						got := ""
+						var werr error
+						if err == nil && p == "" {
+							var docs []*ref.Node
+							if docs, werr = walkDoc(pj, walkCombos[4]); werr == nil {
+								got = renderDocs(docs, renderExact)
+							}
+						}
+						if err != nil || p != "" || werr != nil || got != ex.exact {
+							w.Violate(Violation{Harness: "C02-reuse-pass", Fingerprint: "C02/reuse/default-after-nocopy", What: fmt.Sprintf("parsed without options into the object last used in no-copy mode, input overwritten afterwards: exposed %s (%v %v %v), document is %s", clip(got), err, p, werr, clip(ex.exact)), Case: append([]byte(nil), text...), Config: c.String()})
+						}
+					}
 				}
 			}
 		})
